@@ -13,6 +13,7 @@ Open Scope Q_scope.
 
 Definition tol30 : Q := 1 # 1073741824.
 Definition tol48 : Q := 1 # 281474976710656.
+Definition tol40 : Q := 1 # 1099511627776.
 Definition tol20 : Q := 1 # 1048576.
 Definition bit (b : bool) (k : Z) : Z := if b then k else 0%Z.
 
@@ -59,10 +60,13 @@ Definition decisive (u v w : qpt) : bool :=
 Definition judge_arc8 (gb : box) (a : arc8) : bool * bool * bool * nat :=
   let c := a_c a in
   let u0 := qsub (a_s a) c in let v0 := qsub (a_e a) c in
+  (* the supplied centre is validated: both end points lie on the ellipse around it (exactly for the rational
+     families, within 2^-40 relative for binary64 approximations of irrational centres), and the flags agree *)
+  let rr := a_rx a * a_rx a * (a_ry a * a_ry a) in
   let gen_ok := Qeq_bool (a_cs a * a_cs a + a_sn a * a_sn a) 1 &&
-                Qeq_bool (ell_resid (a_rx a) (a_ry a) (a_cs a) (a_sn a) u0) 0 &&
-                Qeq_bool (ell_resid (a_rx a) (a_ry a) (a_cs a) (a_sn a) v0) 0 &&
-                (Qeq_bool (qcross u0 v0) 0 || Bool.eqb (arc_large (a_sweep a) u0 v0) (a_large a)) in
+                Qle_bool (Qabs (ell_resid (a_rx a) (a_ry a) (a_cs a) (a_sn a) u0)) (tol40 * rr) &&
+                Qle_bool (Qabs (ell_resid (a_rx a) (a_ry a) (a_cs a) (a_sn a) v0)) (tol40 * rr) &&
+                (Qle_bool (Qabs (qcross u0 v0)) (tol20 * (n1 u0 * n1 v0)) || Bool.eqb (arc_large (a_sweep a) u0 v0) (a_large a)) in
   let scale := 1 + n1 c + a_rx a in
   let tie_in := Qle_bool (Qabs (fst (a_cgo a) - fst c)) (tol30 * scale) && Qle_bool (Qabs (snd (a_cgo a) - snd c)) (tol30 * scale) in
   let one (uv : Q * Q) : bool * bool :=
@@ -101,7 +105,10 @@ Definition judge_wit (e : Q) (b : box) (segs : list seg8) (side : Z) (w : wit8) 
   | WN => (true, false)
   | WT i t => match nth_error segs i with
               | Some (GB ctrl) => (true, chk_touch e b side ctrl t)
-              | _ => (true, false)
+              | Some (GA a) =>      (* the end points of an arc: parameter 0 / 1 *)
+                  let X := if Qeq_bool t 0 then a_s a else a_e a in
+                  (true, (Qeq_bool t 0 || Qeq_bool t 1) && Qle_bool (Qabs (coord side X - side_val b side)) e)
+              | None => (true, false)
               end
   | WA i u v => match nth_error segs i with
                 | Some (GA a) =>
